@@ -69,6 +69,7 @@ type Contract struct {
 	Line     int
 	File     string
 	id       int
+	captures []loopVar // closures: captured variables usable in clauses (by value)
 }
 
 type ContractFile struct {
@@ -266,7 +267,24 @@ func render(fset *token.FileSet, n any) string {
 }
 
 func (c *Contract) parseHeader(pkgPath string) error {
-	src := "package p\n" + c.Header + " {}\n"
+	hdr := c.Header
+	if i := strings.Index(hdr, " captures "); i >= 0 {
+		inner := strings.TrimSpace(hdr[i+len(" captures "):])
+		hdr = hdr[:i]
+		inner = strings.TrimSuffix(strings.TrimPrefix(inner, "("), ")")
+		for _, p := range splitTop(inner) {
+			p = strings.TrimSpace(p)
+			if p == "" {
+				continue
+			}
+			sp := strings.SplitN(p, " ", 2)
+			if len(sp) != 2 {
+				return fmt.Errorf("bad capture %q", p)
+			}
+			c.captures = append(c.captures, loopVar{sp[0], strings.TrimSpace(sp[1])})
+		}
+	}
+	src := "package p\n" + hdr + " {}\n"
 	src = strings.Replace(src, "$", "ᐅ", -1) // closures: name$1
 	fset := token.NewFileSet()
 	f, err := parser.ParseFile(fset, "hdr.go", src, 0)
@@ -316,6 +334,10 @@ func (c *Contract) parseHeader(pkgPath string) error {
 			ps = append(ps, nn+" "+tt)
 			c.paramN = append(c.paramN, nn)
 		}
+	}
+	for _, cv := range c.captures {
+		ps = append(ps, cv.Name+" "+cv.Type)
+		c.paramN = append(c.paramN, cv.Name)
 	}
 	c.params = strings.Join(ps, ", ")
 	var rs []string
@@ -996,7 +1018,38 @@ func (e *Engine) frameArgs(fr *Frame) []*Term {
 	for _, p := range fr.fn.Params {
 		args = append(args, fr.entrySt.vals[p])
 	}
+	if ct := e.contracts[fnName(fr.fn)]; ct != nil && len(ct.captures) > 0 {
+		var bs []*Term
+		for _, fv := range fr.fn.FreeVars {
+			bs = append(bs, fr.entrySt.vals[fv])
+		}
+		args = append(args, e.captureVals(ct, fr.fn, bs, fr.curSt)...)
+	}
 	return args
+}
+
+// captureVals returns the current values of the captured variables a closure
+// contract declares (free variables are captured by reference).
+func (e *Engine) captureVals(ct *Contract, fn *ssa.Function, bindings []*Term, st *State) []*Term {
+	var out []*Term
+	for _, cv := range ct.captures {
+		found := false
+		for i, fv := range fn.FreeVars {
+			if fv.Name() != cv.Name {
+				continue
+			}
+			found = true
+			if pt, ok := fv.Type().Underlying().(*types.Pointer); ok {
+				out = append(out, e.loadPtr(st, pt.Elem(), bindings[i]))
+			} else {
+				out = append(out, bindings[i])
+			}
+		}
+		if !found {
+			panic(fmt.Sprintf("closure %s does not capture %q", fn, cv.Name))
+		}
+	}
+	return out
 }
 
 func (e *Engine) checkInvariants(fr *Frame, li *loopInfo, ls *LoopSpec, st *State, pc *Term, kind string) {
@@ -1004,6 +1057,7 @@ func (e *Engine) checkInvariants(fr *Frame, li *loopInfo, ls *LoopSpec, st *Stat
 		return
 	}
 	lv := e.loopVarValues(fr, li, ls, st)
+	fr.curSt = st
 	for _, cl := range ls.Invs {
 		g := e.evalClause(fr, cl, e.frameArgs(fr), lv, st, fr.entrySt, pc)
 		e.addObl(fr, kind, fmt.Sprintf("%s.loop%d.%s", shortFn(fr.fn), li.ordinal, cl.Label), cl.Props, pc, g, fmt.Sprintf("%s:%d", strings.TrimPrefix(e.contracts[fnName(fr.fn)].File, "/repo/"), cl.Line))
@@ -1012,8 +1066,99 @@ func (e *Engine) checkInvariants(fr *Frame, li *loopInfo, ls *LoopSpec, st *Stat
 
 func (e *Engine) assumeInvariants(fr *Frame, li *loopInfo, ls *LoopSpec, st *State, pc *Term) {
 	lv := e.loopVarValues(fr, li, ls, st)
+	fr.curSt = st
 	for _, cl := range ls.Invs {
 		g := e.evalClause(fr, cl, e.frameArgs(fr), lv, st, fr.entrySt, pc)
 		e.assume(pc, g)
 	}
+}
+
+
+// replayClause renders an executable variant of an ensures clause for the
+// replay test: every parameter has a second, pre-state copy <name>_pre, and
+// old(e) is replaced by e over the pre-state copies.
+func (c *Contract) replayClause(cl *Clause, fnName string) (string, error) {
+	expr, err := parser.ParseExpr(cl.Expr)
+	if err != nil {
+		return "", err
+	}
+	params := map[string]bool{}
+	for _, p := range c.paramN {
+		params[p] = true
+	}
+	var rewrite func(n ast.Node, inOld bool) ast.Node
+	rewrite = func(n ast.Node, inOld bool) ast.Node { return n }
+	_ = rewrite
+	var walk func(e ast.Expr, inOld bool) ast.Expr
+	walk = func(e ast.Expr, inOld bool) ast.Expr {
+		switch x := e.(type) {
+		case *ast.Ident:
+			if inOld && params[x.Name] {
+				return ast.NewIdent(x.Name + "_pre")
+			}
+			return x
+		case *ast.CallExpr:
+			if id, ok := x.Fun.(*ast.Ident); ok && id.Name == "old" && len(x.Args) == 1 {
+				return &ast.ParenExpr{X: walk(x.Args[0], true)}
+			}
+			nx := *x
+			nx.Fun = walk(x.Fun, inOld)
+			nx.Args = nil
+			for _, a := range x.Args {
+				nx.Args = append(nx.Args, walk(a, inOld))
+			}
+			return &nx
+		case *ast.BinaryExpr:
+			nx := *x
+			nx.X, nx.Y = walk(x.X, inOld), walk(x.Y, inOld)
+			return &nx
+		case *ast.UnaryExpr:
+			nx := *x
+			nx.X = walk(x.X, inOld)
+			return &nx
+		case *ast.ParenExpr:
+			nx := *x
+			nx.X = walk(x.X, inOld)
+			return &nx
+		case *ast.SelectorExpr:
+			nx := *x
+			nx.X = walk(x.X, inOld)
+			return &nx
+		case *ast.IndexExpr:
+			nx := *x
+			nx.X, nx.Index = walk(x.X, inOld), walk(x.Index, inOld)
+			return &nx
+		case *ast.StarExpr:
+			nx := *x
+			nx.X = walk(x.X, inOld)
+			return &nx
+		case *ast.SliceExpr:
+			nx := *x
+			nx.X = walk(x.X, inOld)
+			return &nx
+		case *ast.FuncLit:
+			return x // closures inside old() are not rewritten (rare)
+		case *ast.CompositeLit:
+			return x
+		}
+		return e
+	}
+	ne := walk(expr, false)
+	var pre []string
+	for _, p := range strings.Split(c.params, ", ") {
+		if p == "" {
+			continue
+		}
+		sp := strings.SplitN(p, " ", 2)
+		pre = append(pre, sp[0]+"_pre "+sp[1])
+	}
+	all := []string{}
+	if c.params != "" {
+		all = append(all, c.params)
+	}
+	all = append(all, pre...)
+	if c.results != "" {
+		all = append(all, c.results)
+	}
+	return fmt.Sprintf("func %s(%s) bool { return %s }\n", fnName, strings.Join(all, ", "), render(token.NewFileSet(), ne)), nil
 }
